@@ -149,7 +149,7 @@ func level(n *Node) int {
 		case "*", "/", "%", "**":
 			return 6
 		}
-	case "smatch":
+	case "smatch", "pmatch":
 		return 1 // match_expr is an operand of logical_expr only
 	}
 	return 9
@@ -249,6 +249,12 @@ func (r *renderer) expr(n *Node) string {
 			}
 		}
 		return "/" + strings.ReplaceAll(re, "/", `\/`) + "/"
+	case "pmatch":
+		l := r.expr(n.L)
+		if level(n.L) != 9 {
+			l = "(" + l + ")"
+		}
+		return l + " =~ /" + strings.ReplaceAll(r.p.Pats[n.P-1].Regex(), "/", `\/`) + "/"
 	case "smatch":
 		re := regexp.QuoteMeta(strings.Join(n.S, ""))
 		if n.A {
@@ -271,6 +277,9 @@ func (r *renderer) expr(n *Node) string {
 		lv := level(n)
 		if n.L.N == "pat" { // pattern_expr logical_op logical_expr : the right side is a whole logical_expr
 			return r.expr(n.L) + " " + op + " " + r.expr(n.R)
+		}
+		if n.R.N == "pmatch" { // logical_expr logical_op match_expr
+			return r.operand(n.L, lv, false) + " " + op + " " + r.expr(n.R)
 		}
 		return r.operand(n.L, lv, false) + " " + op + " " + r.operand(n.R, lv, true)
 	case "assign":
